@@ -367,3 +367,43 @@ def run(chk: Check, eng: Engine) -> None:
     rule_d(chk, eng)
     rule_e(chk, eng)
     rule_f(chk, eng)
+
+
+# ------------------------------------------------------------------ self-test variants
+from ..mutants import M  # noqa: E402
+
+_FT = "src/fandango/constraints/failing_tree.py"
+_CV = "src/fandango/language/parse/convert.py"
+_EXP = "src/fandango/constraints/expression.py"
+_CMP = "src/fandango/constraints/comparison.py"
+_CON = "src/fandango/constraints/conjunction.py"
+_DIS = "src/fandango/constraints/disjunct.py"
+_FA = "src/fandango/constraints/forall.py"
+_EX = "src/fandango/constraints/exists.py"
+_IMP = "src/fandango/constraints/implication.py"
+_S = "src/fandango/language/search.py"
+MUTANTS = [
+    M("invert-greater-to-less", _FT, "            Comparison.GREATER: Comparison.LESS_EQUAL,", "            Comparison.GREATER: Comparison.LESS,", "R07-a"),
+    M("compare-le-uses-lt", _FT, "                return bool(left <= right)", "                return bool(left < right)", "R07-a"),
+    M("compare-swapped-operands", _FT, "                return bool(left > right)", "                return bool(right > left)", "R07-a"),
+    M("token-gteq-to-greater", _CV, "        elif ctx.GT_EQ():\n            op = Comparison.GREATER_EQUAL", "        elif ctx.GT_EQ():\n            op = Comparison.GREATER", "R07-a"),
+    M("expression-exception-skips-total", _EXP, "                print_exception(e, f\"Evaluation failed: {self.expression}\")\n\n            total += 1", "                print_exception(e, f\"Evaluation failed: {self.expression}\")\n                total -= 1\n\n            total += 1", "R07-b"),
+    M("vacuity-only-total", _EXP, "        if not has_combinations:\n            solved += 1\n            total += 1", "        if not has_combinations:\n            total += 1", "R07-c"),
+    M("comparison-vacuity-zero", _CMP, "        if not has_combinations:\n            fitness_values.append(1.0)", "        if not has_combinations:\n            fitness_values.append(0.0)", "R07-c"),
+    M("flag-set-after-eval", _EXP, "        for combination in self.combinations(tree, scope):\n            has_combinations = True\n", "        for combination in self.combinations(tree, scope):\n", "R07-c"),
+    M("conjunction-lazy-break-on-success", _CON, "                if not fitness.success:\n                    break", "                if fitness.success:\n                    break", "R07-d"),
+    M("disjunction-aggregates-all", _DIS, "        overall = any(fitness.success for fitness in fitness_values)", "        overall = all(fitness.success for fitness in fitness_values)", "R07-d"),
+    M("forall-break-before-append", _FA, "            fitness_values.append(fitness)\n            # If the forall constraint is lazy and the statement is not successful, stop\n            if self.lazy and not fitness.success:\n                break",
+      "            # If the forall constraint is lazy and the statement is not successful, stop\n            if self.lazy and not fitness.success:\n                break\n            fitness_values.append(fitness)", "R07-d"),
+    M("exists-break-in-eager-mode", _EX, "            if self.lazy and fitness.success:\n                break", "            if fitness.success:\n                break", "R07-d"),
+    M("forall-invert-keeps-statement", _FA, "        inverted_statement = self.statement.invert()\n", "        inverted_statement = self.statement\n", "R07-e"),
+    M("implication-invert-inverts-antecedent", _IMP, "            [self.antecedent, inverted_consequent],", "            [self.antecedent.invert(), inverted_consequent],", "R07-e"),
+    M("expression-invert-no-parens", _EXP, "        inverted_expression = f\"not ({self.expression})\"", "        inverted_expression = f\"not {self.expression}\"", "R07-e"),
+    M("attribute-search-uses-find", _S, "        bases = self.base.find(tree, scope=scope, population=population)\n        targets = []\n        for base in bases:\n            for t in base.get_trees():\n                targets.extend(\n                    self.attribute.find_direct(t, scope=scope, population=population)\n                )\n        return targets",
+      "        bases = self.base.find(tree, scope=scope, population=population)\n        targets = []\n        for base in bases:\n            for t in base.get_trees():\n                targets.extend(\n                    self.attribute.find(t, scope=scope, population=population)\n                )\n        return targets", "R07-f"),
+    M("dot-and-dotdot-swapped", _CV, "        if ctx.DOT():\n            return AttributeSearch(", "        if ctx.DOTDOT():\n            return AttributeSearch(", "R07-f"),
+]
+TWINS = [
+    M("twin-invert-table-order", _FT, "            Comparison.EQUAL: Comparison.NOT_EQUAL,\n            Comparison.NOT_EQUAL: Comparison.EQUAL,\n", "            Comparison.NOT_EQUAL: Comparison.EQUAL,\n            Comparison.EQUAL: Comparison.NOT_EQUAL,\n", None),
+    M("twin-conjunction-comment", _CON, "                if not fitness.success:\n                    break", "                if not fitness.success:\n                    # first failure decides the conjunction\n                    break", None),
+]
